@@ -157,7 +157,7 @@ class TraceStore(object):
         if b is None:
             last = [a for a in self.h.attempts if a['id'] == mid][-1]
             out = last.get('outcome', ('temp',))
-            if out[0] in ('map', 'seq'):
+            if out[0] in ('map', 'seq', 'rmap', 'gmap'):
                 gone = [r for r, x in zip(last['rcpts'], out[1]) if x == 'temp']
             else:
                 gone = list(last['rcpts'])
@@ -260,7 +260,7 @@ class StubRelay(_RelayBook, Relay):
         if kind == 'other':
             h.emit((2, mid, (3,)))
             raise ValueError('boom')
-        if kind in ('map', 'seq'):
+        if kind in ('map', 'seq', 'rmap', 'gmap'):
             res = out[1]
             h.note_settled(mid, [r for r, x in zip(rc, res) if x == 'ok'], 'deliv')
             h.note_settled(mid, [r for r, x in zip(rc, res) if x == 'perm'], 'fail')
@@ -277,7 +277,14 @@ class StubRelay(_RelayBook, Relay):
                     vals.append(object())
             if kind == 'seq':
                 return vals
-            return dict(zip(envelope.recipients, vals))
+            pairs = list(zip(envelope.recipients, vals))
+            # Relay.attempt may return ANY mapping: the key order need not be the recipient order
+            # (a relay that reports per destination domain); the model event is the same
+            if kind == 'rmap':
+                pairs.reverse()
+            elif kind == 'gmap':
+                pairs = pairs[1::2] + pairs[0::2]
+            return dict(pairs)
         raise AssertionError(out)
 
 
@@ -339,7 +346,7 @@ class ScriptedPipeRelay(_RelayBook, PipeRelay):
         h = self.h
         mid, rc, out = self._begin(envelope, attempts)
         kind = out[0]
-        if kind in ('map', 'seq'):
+        if kind in ('map', 'seq', 'rmap', 'gmap'):
             res = ['temp' if x == 'junk' else x for x in out[1]]
         else:
             res = [kind] * len(rc)
@@ -420,6 +427,7 @@ class QH(object):
         self.flush_returns = 0
         self.errors = []
         self.load_errors = []
+        self.volatile_ts = {}     # mid -> timestamp to report for entries whose stored timestamp is 'now' at every listing (redis orphans)
         self.inner = inner if inner is not None else DictStorage()
         self.store = TraceStore(self, self.inner)
         if relay_kind in ('pipe', 'pipe1'):
@@ -429,6 +437,12 @@ class QH(object):
         self.bq = BounceRecorder(self)
         self._old_time = Q.time
         Q.time = _VTime(self)
+        # RedisStorage.load() falls back to time.time() for an entry without a timestamp: virtual too
+        self._redis_time = None
+        if type(self.inner).__name__ == 'RedisStorage':
+            rmod = sys.modules[type(self.inner).__module__]
+            self._redis_time = (rmod, getattr(rmod, 'time', None))
+            rmod.time = _VTime(self)
         self.queue = Queue(self.store, self.relay, backoff=self._backoff,
                            bounce_factory=self._bounce_factory, bounce_queue=self.bq,
                            store_pool=store_pool, relay_pool=relay_pool)
@@ -504,6 +518,16 @@ class QH(object):
         for _ in range(5):
             gevent.sleep(0)
         Q.time = self._old_time
+        if self._redis_time is not None:
+            rmod, old = self._redis_time
+            if old is None:
+                try:
+                    del rmod.time
+                except AttributeError:
+                    pass
+            else:
+                rmod.time = old
+            self._redis_time = None
 
     def rnum(self, r):
         return int(r.split('@')[0][1:])
@@ -580,7 +604,8 @@ class QH(object):
             except Exception as exc:       # a corrupted entry is part of the observed state
                 st.append((self.ids.get(rid, -1), 'get-raises:' + type(exc).__name__, (), -1, int(ts)))
                 continue
-            st.append((self.ids[rid], 1 if env.sender else 0, tuple(self.rnum(r) for r in env.recipients), att, int(ts)))
+            mid_ = self.ids[rid]
+            st.append((mid_, 1 if env.sender else 0, tuple(self.rnum(r) for r in env.recipients), att, self.volatile_ts.get(mid_, int(ts))))
         wait = None
         if q.wake.waiters:
             wait = ('wait', q.wake.waiters[0][1])
@@ -807,11 +832,11 @@ class Run(object):
         return options[c % len(options)]
 
     def relay_outcome(self, rc):
-        kinds = ['ok', 'temp', 'perm', 'other', 'map', 'seq', 'map', 'temp']
+        kinds = ['ok', 'temp', 'perm', 'other', 'map', 'seq', 'rmap', 'temp', 'gmap']
         if self.cfg.get('junk'):
             kinds.append('junkmap')
         k = self.pick(kinds)
-        if k in ('map', 'seq', 'junkmap'):
+        if k in ('map', 'seq', 'junkmap', 'rmap', 'gmap'):
             alphabet = ['ok', 'perm', 'temp'] + (['junk'] if k == 'junkmap' else [])
             res = tuple(self.pick(alphabet) for _ in rc)
             if 'junk' in res:
@@ -1115,7 +1140,8 @@ def scripted_rounds(ctx, props, backend):
             if not g:
                 break
             seen.append(list(g[0].info))
-            h.release(g[0], ('map', res))
+            # the result mapping comes in recipient order, reversed and interleaved in turn
+            h.release(g[0], (('map', 'rmap', 'gmap', 'map')[rnd % 4], res))
             if 'temp' not in res:
                 break
             for kind in ('incr', 'set_ts', 'set_deliv'):
@@ -1184,7 +1210,35 @@ def scripted_restart(ctx, props, backend):
         h1.close()
         h1 = None
         case = dict(label, phase=2)
-        entries = _real_load(ctx, props, inner, case, 'restart')
+        expect = {0: [1], 1: [6], 2: [12, 13]}
+        if backend == 'redis':
+            # a writer that died between HSETNX(envelope) and the pipeline (timestamp, attempts, RPUSH)
+            # leaves a hash holding only the envelope: it is an accepted-looking message the start-up
+            # load must cope with (HEAD lists it with the current time) and that must not keep the
+            # others from loading
+            import pickle
+            import slimta.redisstorage as redismod
+            orphan = Envelope('s@example.com', ['r20@example.com'])
+            orphan.parse(b'From: sender@example.com\r\nSubject: half written\r\n\r\nbody\r\n')
+            inner.redis.hsetnx(inner._get_key('0rphan'), 'envelope', pickle.dumps(orphan, pickle.HIGHEST_PROTOCOL))
+            ids['0rphan'] = len(ids)
+            expect[ids['0rphan']] = [20]
+
+            class _T(object):
+                @staticmethod
+                def time():
+                    return float(clock)
+            old_time = getattr(redismod, 'time', None)
+            redismod.time = _T
+            try:
+                entries = _real_load(ctx, props, inner, case, 'restart with a half-written entry')
+            finally:
+                if old_time is None:
+                    del redismod.time
+                else:
+                    redismod.time = old_time
+        else:
+            entries = _real_load(ctx, props, inner, case, 'restart')
         if entries is None:
             return
         idmap = _IdMap(ids)
@@ -1194,7 +1248,12 @@ def scripted_restart(ctx, props, backend):
             st0.append([idmap[rid], 1 if env.sender else 0, bytes(int(r.split('@')[0][1:]) for r in env.recipients), att, int(ts)])
         st0.sort()
         nx = len(ids)
-        h2 = QH(inner=inner, ids=ids, clock=clock, init=(st0, nx, clock))
+        h2 = QH(inner=inner, ids=ids, clock=clock, init=(st0, nx, clock), start=False)
+        if backend == 'redis':
+            h2.volatile_ts[ids['0rphan']] = clock
+        h2.queue.start()
+        h2.started = True
+        h2.settle()
         entries.sort(key=lambda e: idmap[e[1]])
         h2.release(h2.pending('load')[0], entries)
         # announcements the dead process never consumed (redis keeps them in its list)
@@ -1228,7 +1287,6 @@ def scripted_restart(ctx, props, backend):
             g = h2.pending('relay', m)
             if g:
                 seen[m] = list(g[0].info)
-        expect = {0: [1], 1: [6], 2: [12, 13]}
         if seen != expect:
             key = 'c03:settled-recipient-attempted-again' if 'c03' in props else ('c01:recipient-lost' if 'c01' in props else 'c12:stored-message-forgotten')
             ctx.fail(key, dict(case, attempts=seen), 'recipients attempted after the restart on %s storage: %r, expected %r (recipient 0 of message 0 was settled and marked before the crash)' % (backend, seen, expect))
